@@ -8,4 +8,6 @@ From Kardia Require Import Base.Anchor.
 Extraction "../ocaml/C11/model.ml" Anchor.anchor Varint.varint Varint.be_bytes Varint.be_val
   Model.vote_sign_bytes Model.proposal_sign_bytes Model.tx_sighash_preimage
   Model.signtx_preimage Model.signature_v Model.validate_signature_values Model.is_protected Model.derive_chain_id
-  Model.recover_plain Model.sender Model.verify_signature Model.vote_verify Model.proposal_verify.
+  Model.recover_plain Model.sender Model.verify_signature Model.vote_verify Model.proposal_verify
+  Model.vote_validate_basic Model.proposal_validate_basic Model.make_signer Model.latest_signer
+  Model.latest_signer_for_chain_id Model.sig_to_pub_rejects.
